@@ -34,6 +34,23 @@ INT64_MIN = -(2**63)
 _CONST = None
 
 
+_PINNED_MODEL = None
+
+
+def model_is_pinned():
+    """True when every expression the model is assembled from equals the pinned one, i.e. the model that runs
+    is the one the theorems were proved about.  Only then is a model output that violates the property a
+    harness bug; otherwise the model follows a changed source and the difference is a correspondence finding."""
+    global _PINNED_MODEL
+    if _PINNED_MODEL is None:
+        from ..extractors import c15_expr
+
+        g = json.load(open(os.path.join(hcore.LEAN, "OrsoVerif", "Generated", "generated.json")))
+        want = c15_expr.pinned_json()
+        _PINNED_MODEL = all(g.get(k) == v for k, v in want.items())
+    return _PINNED_MODEL
+
+
 def consts():
     """Sizes used by the oracle: read from the implementation at run time (they are also extracted into Lean)."""
     global _CONST
@@ -52,19 +69,57 @@ def consts():
 # --------------------------------------------------------------------------- case -> python values
 
 
-def pyvalue(kind, v):
-    """The Python object stored in the frame for JSON cell v of a column of `kind`."""
+FORMS = {
+    "TIMESTAMP": ["naive", "aware", "numpy", "pandas", "pandas_tz"],
+    "DATE": ["date", "numpy", "pandas"],
+}
+PANDAS_RANGE = 9 * 10**9  # |epoch seconds| a pandas Timestamp (int64 nanoseconds) can hold
+
+
+def pyvalue(kind, v, form=None):
+    """The Python object stored in the frame for JSON cell v of a column of `kind` (temporal kinds: in the
+    cell form asked for — datetime / tz-aware datetime / numpy.datetime64 / pandas.Timestamp)."""
     if v is None:
         return None
     if kind == "DECIMAL":
         return decimal.Decimal(v)
     if kind == "DATE":
+        if form == "numpy":
+            import numpy
+
+            return numpy.datetime64(v, "D")
+        if form == "pandas":
+            import pandas
+
+            return pandas.Timestamp(v * 86400, unit="s")
         return (EPOCH + datetime.timedelta(days=v)).date()
     if kind == "TIMESTAMP":
+        if form == "aware":
+            tz = datetime.timezone(datetime.timedelta(hours=(v % 7) - 3, minutes=30 * (v % 2)))
+            return (EPOCH.replace(tzinfo=datetime.timezone.utc) + datetime.timedelta(seconds=v)).astimezone(tz)
+        if form == "numpy":
+            import numpy
+
+            return numpy.datetime64(v, "s")
+        if form == "pandas":
+            import pandas
+
+            return pandas.Timestamp(v, unit="s")
+        if form == "pandas_tz":
+            import pandas
+
+            # fixed whole-minute offsets: numpy drops the seconds of a UTC offset (historical local mean times)
+            tz = datetime.timezone(datetime.timedelta(hours=5, minutes=30) if v % 2 else datetime.timedelta(hours=-4))
+            return pandas.Timestamp(v, unit="s", tz="UTC").tz_convert(tz)
         return EPOCH + datetime.timedelta(seconds=v)
     if kind == "ARRAY":
         return list(v)
     return v
+
+
+def cell_forms(case):
+    c = case.get("cells")
+    return c if c else [None] * len(case["kinds"])
 
 
 def exact(kind, v):
@@ -158,6 +213,20 @@ def valid_case(c):
                 return False
             if not all(valid_cell(k, v) for k, v in zip(kinds, r)):
                 return False
+        if "cells" in c:
+            if not isinstance(c["cells"], list) or len(c["cells"]) != len(kinds):
+                return False
+            for j, (k, f) in enumerate(zip(kinds, c["cells"])):
+                if f is None:
+                    continue
+                if f not in FORMS.get(k, []):
+                    return False
+                if f.startswith("pandas"):
+                    scale = 86400 if k == "DATE" else 1
+                    if any(r[j] is not None and abs(r[j] * scale) > PANDAS_RANGE for r in rows):
+                        return False
+        if "lazy" in c and not isinstance(c["lazy"], bool):
+            return False
         n = c["gen"]["n"] if "gen" in c else len(rows)
         for k in c.get("cuts", []):
             if not isinstance(k, int) or isinstance(k, bool) or not (1 <= k <= n - 1):
@@ -170,7 +239,7 @@ def valid_case(c):
 # --------------------------------------------------------------------------- implementation adaptor
 
 
-def _frame(kinds, rows):
+def _frame(kinds, rows, cells=None, lazy=False):
     from orso import DataFrame
     from orso.schema import FlatColumn, RelationSchema
     from orso.types import OrsoTypes
@@ -182,7 +251,10 @@ def _frame(kinds, rows):
         else:
             cols.append(FlatColumn(name="c%d" % j, type=getattr(OrsoTypes, k)))
     schema = RelationSchema(name="t", columns=cols)
-    data = [tuple(pyvalue(k, v) for k, v in zip(kinds, r)) for r in rows]
+    cells = cells or [None] * len(kinds)
+    data = [tuple(pyvalue(k, v, f) for k, v, f in zip(kinds, r, cells)) for r in rows]
+    if lazy:  # lazily backed frame: rows come from a generator until something materialises them
+        return DataFrame(rows=(r for r in data), schema=schema)
     return DataFrame(rows=data, schema=schema)
 
 
@@ -217,12 +289,12 @@ def _column_dict(p):
     return d
 
 
-def impl_profiles(kinds, rows):
+def impl_profiles(kinds, rows, cells=None, lazy=False):
     """Profile a frame through the public entry point. Returns (table profile | None, list of column dicts)."""
     with warnings.catch_warnings():
         warnings.simplefilter("ignore")
         try:
-            tp = _frame(kinds, rows).profile
+            tp = _frame(kinds, rows, cells, lazy).profile
         except Exception as e:
             return None, [{"raised": "%s: %s" % (type(e).__name__, str(e)[:120])} for _ in kinds]
         return tp, [_column_dict(tp.column("c%d" % j)) for j in range(len(kinds))]
@@ -455,7 +527,9 @@ def check_case(case):
     """Run one case on the implementation. Returns dict(failure=(what, text, col)|None, cols=[...], adds=[...])."""
     kinds = case["kinds"]
     rows = expand(case)
-    tp, cols = impl_profiles(kinds, rows)
+    cells = cell_forms(case)
+    lazy = bool(case.get("lazy"))
+    tp, cols = impl_profiles(kinds, rows, cells, lazy)
     res = {"cols": cols, "adds": [], "failure": None}
     for j, k in enumerate(kinds):
         vals = [r[j] for r in rows]
@@ -467,8 +541,8 @@ def check_case(case):
         with warnings.catch_warnings():
             warnings.simplefilter("ignore")
             try:
-                pa = _frame(kinds, rows[:cut]).profile
-                pb = _frame(kinds, rows[cut:]).profile
+                pa = _frame(kinds, rows[:cut], cells, lazy).profile
+                pb = _frame(kinds, rows[cut:], cells, lazy).profile
                 ps = pa + pb
                 sums = [_column_dict(ps.column("c%d" % j)) for j in range(len(kinds))]
                 parts = [[_column_dict(pa.column("c%d" % j)), _column_dict(pb.column("c%d" % j))] for j in range(len(kinds))]
@@ -499,6 +573,8 @@ def shrink_case(case, what):
         for j in range(len(c["kinds"])):
             c2 = dict(c)
             c2["kinds"] = [c["kinds"][j]]
+            if "cells" in c:
+                c2["cells"] = [c["cells"][j]]
             if "gen" in c:
                 c2["gen"] = dict(c["gen"], pattern=[[r[j]] for r in c["gen"]["pattern"]])
             else:
@@ -507,9 +583,8 @@ def shrink_case(case, what):
                 c = c2
                 break
     if "gen" in c and c["gen"]["n"] <= 400:
-        c2 = {"kinds": c["kinds"], "rows": expand(c)}
-        if c.get("cuts"):
-            c2["cuts"] = c["cuts"]
+        c2 = {k: v for k, v in c.items() if k != "gen"}
+        c2["rows"] = expand(c)
         if still(c2):
             c = c2
     if c.get("cuts") and what != "additive" and what != "add-raised":
@@ -522,6 +597,11 @@ def shrink_case(case, what):
             if still(c2):
                 c = c2
                 break
+    for drop in ("lazy", "cells"):
+        if drop in c:
+            c2 = {k: v for k, v in c.items() if k != drop}
+            if still(c2):
+                c = c2
     c = shrink(c, still, budget=250)
     if c.get("cuts") == []:
         c = {k: v for k, v in c.items() if k != "cuts"}
@@ -545,11 +625,17 @@ def evaluate(ctx, cases):
         ctx.case(c, nontrivial)
         ctx.hit("rows:%s" % (n if n <= 5 else "6-31" if n < 32 else "32-99" if n < 100 else "100-999" if n < 1000 else ">=1000"))
         ctx.hit("cuts:%d" % min(len(c.get("cuts", [])), 9))
+        ctx.hit("frame:lazy" if c.get("lazy") else "frame:eager")
+        for k, f in zip(kinds, cell_forms(c)):
+            if k in TEMPORAL:
+                ctx.hit("cell:%s:%s" % (k, f or ("naive" if k == "TIMESTAMP" else "date")))
         for j, k in enumerate(kinds):
             vals = [r[j] for r in rows]
             nn = [v for v in vals if v is not None]
             ctx.hit("kind:" + k)
             ctx.hit("nulls:" + ("all" if not nn else "none" if len(nn) == n else "some"))
+            if k == "DECIMAL" and nn and len(nn) < n:
+                ctx.hit("decimal:with-nulls")
             if k in NUMERIC + TEMPORAL + ("VARCHAR",) and nn and not non_finite(k, nn):
                 ex = [exact(k, v) for v in nn]
                 o, _ = expected_order(ex)
@@ -598,11 +684,18 @@ def evaluate(ctx, cases):
             vals = [r[j] for r in expand(c)]
             m = model_dict(k, out)
             mf = oracle_column(k, vals, m, model_side=True)
-            if mf is not None:
+            if mf is not None and model_is_pinned():
                 raise InfraError("the oracle rejects the MODEL's profile of %s column %r: %s" % (k, vals[:50], mf[1]))
             diff = compare_column(k, res["cols"][j], m, core_only=len(vals) > consts()["batch"])
+            if mf is not None and diff is None:
+                diff = "the model assembled from the changed source violates the property (%s) where the implementation does not" % mf[1]
             if diff is not None:
-                ctx.disagree({"kinds": [k], "rows": [[v] for v in vals]} if len(vals) <= 400 else c, res["cols"][j], _plain(m), what=diff)
+                small = {"kinds": [k], "rows": [[v] for v in vals]}
+                if cell_forms(c)[j]:
+                    small["cells"] = [cell_forms(c)[j]]
+                if c.get("lazy"):
+                    small["lazy"] = True
+                ctx.disagree(small if len(vals) <= 400 else c, res["cols"][j], _plain(m), what=diff)
         elif tag == "batched":
             j = payload
             if out[0] != core_of(res["cols"][j]):
@@ -746,6 +839,19 @@ def random_case(ctx, big=False):
     cols = [random_column(rng, k, n) for k in kinds]
     rows = [[col[i] for col in cols] for i in range(n)]
     c = {"kinds": kinds, "rows": rows}
+    if any(k in TEMPORAL for k in kinds) and rng.random() < 0.6:
+        cells = []
+        for j, k in enumerate(kinds):
+            f = rng.choice(FORMS[k]) if k in TEMPORAL else None
+            if f and f.startswith("pandas"):
+                scale = 86400 if k == "DATE" else 1
+                if any(r[j] is not None and abs(r[j] * scale) > PANDAS_RANGE for r in rows):
+                    f = None
+            cells.append(f)
+        if any(cells):
+            c["cells"] = cells
+    if rng.random() < 0.15:
+        c["lazy"] = True
     if n >= 2 and rng.random() < 0.6:
         if n <= 6 and rng.random() < 0.5:
             c["cuts"] = list(range(1, n))
@@ -772,6 +878,8 @@ def big_case(ctx, i):
         cols.append(col)
     pattern = [[col[i] for col in cols] for i in range(plen)]
     c = {"kinds": kinds, "gen": {"n": n, "pattern": pattern}}
+    if i % 2 == 1:
+        c["lazy"] = True
     if i % 3 == 0:
         c["cuts"] = [rng.choice([1, b, n - 1])]
     return c
@@ -797,6 +905,15 @@ def edge_cases():
     out.append({"kinds": ["VARCHAR"], "rows": [["aé"], ["b"], [""]], "cuts": [1, 2]})
     out.append({"kinds": ["VARCHAR"], "rows": [["x" * 64 + "a"], ["x" * 64 + "b"], ["x" * 64 + "b"], ["x" * 63]], "cuts": [2]})
     out.append({"kinds": ["VARCHAR"], "rows": [["abcdefgh"], ["abcdefghi"], ["abcdefgz"], ["\U0001f600"], ["日本語"]], "cuts": [2, 3]})
+    # every temporal cell form, null first and not first (the two branches of DateProfiler), across cuts
+    for k, fs in FORMS.items():
+        vals = [0, -1, 19000] if k == "DATE" else [1, -1, 1700000000]
+        for f in fs:
+            out.append({"kinds": [k], "cells": [f], "rows": [[vals[0]], [None], [vals[1]], [vals[2]]], "cuts": [1, 2, 3]})
+            out.append({"kinds": [k], "cells": [f], "rows": [[None], [vals[0]], [vals[1]], [vals[1]]], "cuts": [1, 2]})
+    # DECIMAL with nulls anywhere; lazily backed frames
+    out.append({"kinds": ["DECIMAL"], "rows": [[None], ["-2.50"], ["0"], [None], ["7.125"], ["0.0"]], "cuts": [1, 2, 3, 4, 5]})
+    out.append({"kinds": ["INTEGER", "VARCHAR", "TIMESTAMP"], "lazy": True, "rows": [[3, "b", 5], [None, None, None], [0, "a", -5], [-2, "", 0]], "cuts": [1, 2, 3]})
     # a frame one row above the batch size whose last batch is a single null row (histogram of the sum)
     b = consts()["batch"]
     pat = [[5], [5], [3], [0], [0], [-2], [7]]
